@@ -71,6 +71,8 @@ func checkC09(c *Ctx) {
 	c9Atomics(c)
 	c9Blocking(c)
 	c9EncoderPurity(c, "R9.6")
+	c.Rule("R9.9", "package-level tables are read-only after initialisation (or written under a lock)", 1)
+	c9GlobalTables(c, "R9.9")
 	c.Rule("R9.8", "no object is touched after it went back to its pool (the next owner may be another goroutine), and derived handlers/cores never share a slice tail with their parent", 8)
 	c8UseAfterRelease(c, "R9.8", c8ReleaseFns(c))
 	for _, m := range []string{"WithAttrs", "WithGroup"} {
@@ -615,4 +617,99 @@ func onceBody(mk *ssa.MakeClosure) *ssa.Function {
 		}
 	}
 	return f
+}
+
+// c9GlobalTables: package-level maps and slices are filled while the package initialises and are read-only
+// afterwards, or every later write holds a lock. A table handed to a helper that writes into its parameter counts
+// (the helper's call sites decide where the table comes from).
+func c9GlobalTables(c *Ctx, rule string) {
+	isInit := func(fn *ssa.Function) bool {
+		top := fn
+		for top.Parent() != nil {
+			top = top.Parent()
+		}
+		return top.Signature.Recv() == nil && (top.Name() == "init" || strings.HasPrefix(top.Name(), "init#"))
+	}
+	// fromGlobal: the table value may be (the contents of) a package-level variable
+	var fromGlobal func(v ssa.Value, d int) *ssa.Global
+	fromGlobal = func(v ssa.Value, d int) *ssa.Global {
+		if d > 4 {
+			return nil
+		}
+		v = Strip(v)
+		switch x := v.(type) {
+		case *ssa.UnOp:
+			if x.Op == token.MUL {
+				if g, ok := x.X.(*ssa.Global); ok {
+					return g
+				}
+			}
+		case *ssa.Global:
+			return x
+		case *ssa.Slice:
+			return fromGlobal(x.X, d+1)
+		case *ssa.Phi:
+			for _, e := range x.Edges {
+				if g := fromGlobal(e, d+1); g != nil {
+					return g
+				}
+			}
+		case *ssa.Parameter:
+			f := x.Parent()
+			idx := -1
+			for i, p := range f.Params {
+				if p == x {
+					idx = i
+				}
+			}
+			for _, s := range sitesOf(f) {
+				a := s.Common().Args
+				if s.Common().StaticCallee() == f && idx >= 0 && idx < len(a) {
+					if g := fromGlobal(a[idx], d+1); g != nil {
+						return g
+					}
+				}
+			}
+		}
+		return nil
+	}
+	n := 0
+	tables := map[*ssa.Global]bool{}
+	c.EachRootFunc(func(fn *ssa.Function) {
+		var held map[ssa.Instruction]LockSet
+		AllInstrs(fn, func(in ssa.Instruction) {
+			var tbl ssa.Value
+			switch x := in.(type) {
+			case *ssa.MapUpdate:
+				tbl = x.Map
+			case *ssa.Store:
+				if ia, ok := x.Addr.(*ssa.IndexAddr); ok {
+					tbl = ia.X
+				}
+			}
+			if tbl == nil {
+				return
+			}
+			g := fromGlobal(tbl, 0)
+			if g == nil || g.Pkg == nil {
+				return
+			}
+			tables[g] = true
+			if isInit(fn) {
+				return
+			}
+			n++
+			if held == nil {
+				held = MustHeldCtx(fn)
+			}
+			locked := false
+			for _, k := range held[in] {
+				if k == 1 {
+					locked = true
+				}
+			}
+			c.Check(locked, rule, FuncKey(fn), "table-write/"+g.Name(), in.Pos(), "the package-level table %s is written after initialisation only with a lock held (lockset %s); an unsynchronised write on the logging path races with every reader", g.Name(), held[in])
+		})
+	})
+	c.Check(len(tables) >= 3, rule, "package-level tables", "count", token.NoPos, "%d package-level maps/slices with element writes found; %d writes outside initialisers, each under a lock", len(tables), n)
 }
